@@ -41,10 +41,12 @@ struct Cfg {
     mode: TransportMode,
     init: Vec<(MediaKind, TransceiverDirection)>,
     bad_env: bool,
+    /// RTP port range of exactly one port: the first media socket binds, any further one fails
+    one_port: bool,
 }
 impl Cfg {
     fn key(&self) -> String {
-        format!("{:?}/{}/{}", self.mode, self.init.iter().map(|(k, d)| format!("{:?}:{:?}", k, d)).collect::<Vec<_>>().join("+"), if self.bad_env { "badenv" } else { "ok" })
+        format!("{:?}/{}/{}", self.mode, self.init.iter().map(|(k, d)| format!("{:?}:{:?}", k, d)).collect::<Vec<_>>().join("+"), if self.bad_env { "badenv" } else if self.one_port { "oneport" } else { "ok" })
     }
     fn rtc(&self) -> RtcConfiguration {
         let mut c = RtcConfiguration::default();
@@ -52,6 +54,12 @@ impl Cfg {
         if self.bad_env {
             // TEST-NET-3: not assigned to any local interface, every bind() fails with EADDRNOTAVAIL
             c.bind_ip = Some("203.0.113.77".into());
+        }
+        if self.one_port {
+            c.bind_ip = Some("127.0.0.1".into());
+            let p = free_even_port();
+            c.rtp_start_port = Some(p);
+            c.rtp_end_port = Some(p);
         }
         c
     }
@@ -62,6 +70,16 @@ impl Cfg {
         }
         pc
     }
+}
+
+/// an even UDP port on 127.0.0.1 that is free right now
+fn free_even_port() -> u16 {
+    for _ in 0..400 {
+        if let Ok(s) = std::net::UdpSocket::bind("127.0.0.1:0") {
+            if let Ok(a) = s.local_addr() { if a.port() % 2 == 0 { return a.port(); } }
+        }
+    }
+    40000
 }
 
 fn mode_term(m: &TransportMode) -> &'static str {
@@ -282,7 +300,11 @@ fn snap_json(s: &Snap) -> serde_json::Value {
 
 // ---------------------------------------------------------------- the alphabet
 #[derive(Clone, Copy, Debug, PartialEq, Eq, Hash)]
-enum LocalVar { Own, Changed, NoCodecs }
+enum LocalVar {
+    Own, Changed, NoCodecs,
+    // application-edited descriptions (what create_offer / create_answer returned, modified before being applied)
+    SwapMids, RenameMid, DropSection, DupSection, FlipDir,
+}
 #[derive(Clone, Copy, Debug, PartialEq, Eq, Hash)]
 enum RemoteVar { Base, Changed, Malformed }
 #[derive(Clone, Debug, PartialEq)]
@@ -349,7 +371,7 @@ struct Remote {
     malformed: SessionDescription,
 }
 async fn make_remote(cfg: &Cfg) -> Remote {
-    let peer_cfg = Cfg { mode: cfg.mode.clone(), init: vec![(MediaKind::Audio, TransceiverDirection::SendRecv)], bad_env: false };
+    let peer_cfg = Cfg { mode: cfg.mode.clone(), init: vec![(MediaKind::Audio, TransceiverDirection::SendRecv)], bad_env: false, one_port: false };
     let peer = peer_cfg.make();
     let base = peer.create_offer().await.expect("peer offer");
     peer.close();
@@ -391,6 +413,7 @@ async fn make_remote(cfg: &Cfg) -> Remote {
 async fn make_canned_local(cfg: &Cfg) -> SessionDescription {
     let mut c = cfg.clone();
     c.bad_env = false;
+    c.one_port = false;
     if c.init.is_empty() {
         c.init = vec![(MediaKind::Audio, TransceiverDirection::SendRecv)];
     }
@@ -496,6 +519,23 @@ async fn apply_letter(pc: &PeerConnection, w: &World, last_gen: &mut Option<Sess
                 LocalVar::Changed => { if let Some(s) = d.media_sections.first_mut() { to_pcma(s); } }
                 LocalVar::NoCodecs => { if let Some(s) = d.media_sections.first_mut() { to_no_codecs(s); } }
                 LocalVar::Own => {}
+                LocalVar::SwapMids => {
+                    // exchange the mids of the first two m-lines of different kinds (else rotate the first two)
+                    let n = d.media_sections.len();
+                    if n >= 2 {
+                        let j = (1..n).find(|&j| d.media_sections[j].kind != d.media_sections[0].kind).unwrap_or(1);
+                        let a = d.media_sections[0].mid.clone();
+                        d.media_sections[0].mid = d.media_sections[j].mid.clone();
+                        d.media_sections[j].mid = a;
+                    } else if let Some(s) = d.media_sections.first_mut() {
+                        // one m-line only: present it as the other kind under the same mid
+                        s.kind = if s.kind == MediaKind::Audio { MediaKind::Video } else { MediaKind::Audio };
+                    }
+                }
+                LocalVar::RenameMid => { if let Some(s) = d.media_sections.first_mut() { s.mid = "9".into(); } }
+                LocalVar::DropSection => { d.media_sections.pop(); }
+                LocalVar::DupSection => { if let Some(s) = d.media_sections.first().cloned() { d.media_sections.push(s); } }
+                LocalVar::FlipDir => { if let Some(s) = d.media_sections.first_mut() { s.direction = if s.direction == Direction::Inactive { Direction::SendRecv } else { Direction::Inactive }; } }
             }
             let term = format!("SetLocal {}", desc_term(it, &d));
             let res = match catch(AssertUnwindSafe(|| pc.set_local_description(d))) { Ok(Ok(())) => Res::Ok, Ok(Err(e)) => classify(&e), Err(p) => Res::Panic(p) };
@@ -779,7 +819,7 @@ fn raw_descs(base: &SessionDescription, mode: &TransportMode) -> Vec<SessionDesc
 /// the same fingerprint and other codecs (applied).  The sequence is emitted for the model with
 /// `EnvDtlsStarted` where the transports came up.
 async fn live_pair(out: &mut Out, it: &mut Interner) -> serde_json::Value {
-    let cfg = Cfg { mode: TransportMode::WebRtc, init: vec![(MediaKind::Audio, TransceiverDirection::SendRecv)], bad_env: false };
+    let cfg = Cfg { mode: TransportMode::WebRtc, init: vec![(MediaKind::Audio, TransceiverDirection::SendRecv)], bad_env: false, one_port: false };
     let a = cfg.make();
     let b = cfg.make();
     let init = snapshot(&b);
@@ -917,7 +957,7 @@ fn run_races(out: &mut Out, thorough: bool) -> serde_json::Value {
     use std::sync::atomic::{AtomicUsize, Ordering};
     use std::sync::Arc;
     let rt = tokio::runtime::Builder::new_multi_thread().worker_threads(2).enable_all().build().unwrap();
-    let cfg = Cfg { mode: TransportMode::Rtp, init: vec![(MediaKind::Audio, TransceiverDirection::SendRecv)], bad_env: false };
+    let cfg = Cfg { mode: TransportMode::Rtp, init: vec![(MediaKind::Audio, TransceiverDirection::SendRecv)], bad_env: false, one_port: false };
     let (local_offer, remote_offer) = rt.block_on(async {
         let a = cfg.make();
         let lo = a.create_offer().await.expect("offer");
@@ -1010,10 +1050,10 @@ async fn async_main(args: Args, mut out: Out, races: serde_json::Value) {
     let ans_prefix = vec![Letter::SetRemote(SdpType::Offer, RemoteVar::Base), Letter::CreateAnswer, Letter::SetLocal(SdpType::Answer, LocalVar::Own)];
 
     // ---- corpus (witnesses first)
-    let c_rtp = Cfg { mode: TransportMode::Rtp, init: vec![audio], bad_env: false };
-    let c_bad = Cfg { mode: TransportMode::Rtp, init: vec![audio], bad_env: true };
+    let c_rtp = Cfg { mode: TransportMode::Rtp, init: vec![audio], bad_env: false, one_port: false };
+    let c_bad = Cfg { mode: TransportMode::Rtp, init: vec![audio], bad_env: true, one_port: false };
     for m in &modes {
-        let c = Cfg { mode: m.clone(), init: vec![audio], bad_env: false };
+        let c = Cfg { mode: m.clone(), init: vec![audio], bad_env: false, one_port: false };
         // F13: [create_offer; set_local(offer); set_local(offer')]
         jobs.push(("corpus".into(), c.clone(), vec![Letter::CreateOffer, Letter::SetLocal(SdpType::Offer, LocalVar::Own), Letter::SetLocal(SdpType::Offer, LocalVar::Changed)]));
         // mid counter: rejected answer with mid 7 / rejected answer with mids 0 and 5
@@ -1022,7 +1062,7 @@ async fn async_main(args: Args, mut out: Out, races: serde_json::Value) {
         for raw in 1..9usize {
             jobs.push(("corpus".into(), c.clone(), vec![Letter::SetRemoteRaw(raw), Letter::CreateAnswer, Letter::SetLocal(SdpType::Answer, LocalVar::Own), Letter::SetRemote(SdpType::Offer, RemoteVar::Changed)]));
         }
-        let c2 = Cfg { mode: m.clone(), init: vec![audio, video], bad_env: false };
+        let c2 = Cfg { mode: m.clone(), init: vec![audio, video], bad_env: false, one_port: false };
         jobs.push(("corpus".into(), c2.clone(), vec![Letter::SetRemoteRaw(1), Letter::CreateAnswer, Letter::SetLocal(SdpType::Pranswer, LocalVar::Own), Letter::SetLocal(SdpType::Answer, LocalVar::Own), Letter::SetRemoteRaw(2), Letter::CreateAnswer, Letter::SetLocal(SdpType::Answer, LocalVar::Changed)]));
         jobs.push(("corpus".into(), c2.clone(), vec![Letter::CreateOffer, Letter::SetLocal(SdpType::Offer, LocalVar::Own), Letter::SetRemoteRaw(8), Letter::CreateOffer, Letter::SetLocal(SdpType::Offer, LocalVar::Changed), Letter::SetRemote(SdpType::Pranswer, RemoteVar::Changed), Letter::SetRemote(SdpType::Answer, RemoteVar::Base)]));
         // empty payload maps on every path (initial / re-offer / answer), also in WebRTC mode
@@ -1030,7 +1070,7 @@ async fn async_main(args: Args, mut out: Out, races: serde_json::Value) {
         jobs.push(("corpus".into(), c.clone(), vec![Letter::CreateOffer, Letter::SetLocal(SdpType::Offer, LocalVar::Own), Letter::SetRemote(SdpType::Pranswer, RemoteVar::Base), Letter::SetRemoteRaw(10), Letter::CreateOffer, Letter::SetLocal(SdpType::Offer, LocalVar::NoCodecs), Letter::SetRemoteRaw(10)]));
         // offer without m-lines: create_answer with / without transceivers
         jobs.push(("corpus".into(), c.clone(), vec![Letter::SetRemoteRaw(11), Letter::CreateAnswer]));
-        jobs.push(("corpus".into(), Cfg { mode: m.clone(), init: vec![], bad_env: false }, vec![Letter::SetRemoteRaw(11), Letter::CreateAnswer]));
+        jobs.push(("corpus".into(), Cfg { mode: m.clone(), init: vec![], bad_env: false, one_port: false }, vec![Letter::SetRemoteRaw(11), Letter::CreateAnswer]));
         // re-offer with a data-channel m-line after a completed negotiation (matched_rtp skips it)
         let mut q = ans_prefix.clone();
         q.extend(vec![Letter::SetRemoteRaw(4), Letter::CreateAnswer, Letter::SetLocal(SdpType::Answer, LocalVar::Own), Letter::SetRemoteRaw(4), Letter::SetRemote(SdpType::Offer, RemoteVar::Base)]);
@@ -1049,7 +1089,7 @@ async fn async_main(args: Args, mut out: Out, races: serde_json::Value) {
     jobs.push(("corpus".into(), c_bad.clone(), vec![Letter::SetRemote(SdpType::Offer, RemoteVar::Base), Letter::CreateAnswer, Letter::SetRemote(SdpType::Offer, RemoteVar::Changed)]));
 
     // SRTP mode: start_direct finds no local candidate (about 2 s per call, hence corpus only)
-    let c_bad_srtp = Cfg { mode: TransportMode::Srtp, init: vec![audio], bad_env: true };
+    let c_bad_srtp = Cfg { mode: TransportMode::Srtp, init: vec![audio], bad_env: true, one_port: false };
     jobs.push(("corpus".into(), c_bad_srtp.clone(), vec![Letter::SetRemote(SdpType::Offer, RemoteVar::Base), Letter::Close]));
 
     // ---- exhaustive enumerations
@@ -1071,7 +1111,7 @@ async fn async_main(args: Args, mut out: Out, races: serde_json::Value) {
     }
     for m in &modes {
         for init in &inits {
-            let c = Cfg { mode: m.clone(), init: init.clone(), bad_env: false };
+            let c = Cfg { mode: m.clone(), init: init.clone(), bad_env: false, one_port: false };
             if c == c_rtp { continue; }
             let depth = if thorough { 3 } else { 2 };
             for s in all_seqs(&alpha, depth) { jobs.push(("exhaustive".into(), c.clone(), s)); }
@@ -1080,7 +1120,7 @@ async fn async_main(args: Args, mut out: Out, races: serde_json::Value) {
     for s in all_seqs(&alpha, if thorough { 3 } else { 2 }) { jobs.push(("exhaustive-badenv".into(), c_bad.clone(), s)); }
     // previously negotiated connections
     for m in &modes {
-        let c = Cfg { mode: m.clone(), init: vec![audio], bad_env: false };
+        let c = Cfg { mode: m.clone(), init: vec![audio], bad_env: false, one_port: false };
         let neg_depth = if thorough && *m == TransportMode::Rtp { 3 } else { 2 };
         for pre in [&off_prefix, &ans_prefix] {
             jobs.push(("negotiated".into(), c.clone(), pre.clone()));
@@ -1093,7 +1133,7 @@ async fn async_main(args: Args, mut out: Out, races: serde_json::Value) {
     }
     // ---- calls after close(): every later call must return Err and change nothing
     for m in &modes {
-        let c = Cfg { mode: m.clone(), init: vec![audio], bad_env: false };
+        let c = Cfg { mode: m.clone(), init: vec![audio], bad_env: false, one_port: false };
         let depth = if *m == TransportMode::Rtp || thorough { 2 } else { 1 };
         let mut pres: Vec<Vec<Letter>> = vec![vec![Letter::CreateOffer, Letter::Close], vec![Letter::SetRemote(SdpType::Offer, RemoteVar::Base), Letter::Close],
             vec![Letter::CreateOffer, Letter::SetLocal(SdpType::Offer, LocalVar::Own), Letter::Close]];
@@ -1107,10 +1147,57 @@ async fn async_main(args: Args, mut out: Out, races: serde_json::Value) {
             }
         }
     }
+    // ---- application-edited local descriptions: mids swapped between kinds / renamed, an m-line
+    // dropped / duplicated, direction flipped, applied as offer / answer / pranswer at four points
+    {
+        let edits = [LocalVar::SwapMids, LocalVar::RenameMid, LocalVar::DropSection, LocalVar::DupSection, LocalVar::FlipDir];
+        let tys = [SdpType::Offer, SdpType::Answer, SdpType::Pranswer];
+        let after: Vec<Vec<Letter>> = vec![vec![], vec![Letter::CreateOffer], vec![Letter::SetRemote(SdpType::Answer, RemoteVar::Base)],
+            vec![Letter::SetLocal(SdpType::Offer, LocalVar::Own)], vec![Letter::CreateAnswer, Letter::SetLocal(SdpType::Answer, LocalVar::Own)]];
+        for m in &modes {
+            for init in [vec![audio, video], vec![audio]] {
+                let c = Cfg { mode: m.clone(), init: init.clone(), bad_env: false, one_port: false };
+                let pres: Vec<Vec<Letter>> = vec![vec![], vec![Letter::CreateOffer], off_prefix.clone(),
+                    { let mut p = off_prefix.clone(); p.push(Letter::CreateOffer); p }, vec![Letter::SetRemote(SdpType::Offer, RemoteVar::Base), Letter::CreateAnswer]];
+                for pre in &pres {
+                    for e in edits {
+                        for t in tys {
+                            for suf in &after {
+                                if init.len() == 1 && !suf.is_empty() && suf.len() != 1 { continue; }
+                                let mut q = pre.clone();
+                                q.push(Letter::SetLocal(t, e));
+                                q.extend(suf.clone());
+                                jobs.push(("edited-local".into(), c.clone(), q));
+                            }
+                        }
+                    }
+                }
+            }
+        }
+    }
+    // ---- one usable RTP port: the first media socket binds, the socket of an added non-bundled
+    // m-line does not -- a re-INVITE on a negotiated connection that fails LATE (after handle_reinvite)
+    {
+        let c1 = Cfg { mode: TransportMode::Rtp, init: vec![audio], bad_env: false, one_port: true };
+        for pre in [&ans_prefix, &off_prefix] {
+            let mut q = pre.clone();
+            q.push(Letter::SetRemote(SdpType::Offer, RemoteVar::Changed));
+            jobs.insert(0, ("corpus".into(), c1.clone(), q));
+            for s in all_seqs(&alpha, if thorough { 3 } else { 2 }) {
+                let mut q = pre.clone();
+                q.extend(s);
+                jobs.push(("negotiated-oneport".into(), c1.clone(), q));
+            }
+        }
+        // offerer side: changed answer / pranswer to a re-offer
+        let mut q = off_prefix.clone();
+        q.extend(vec![Letter::CreateOffer, Letter::SetLocal(SdpType::Offer, LocalVar::Own), Letter::SetRemote(SdpType::Pranswer, RemoteVar::Changed), Letter::SetRemote(SdpType::Answer, RemoteVar::Changed)]);
+        jobs.insert(0, ("corpus".into(), c1.clone(), q));
+    }
     // ---- random longer sequences, weighted towards calls that are accepted in the current state
     let nrand = if thorough { 12000 } else { 1500 };
     for _ in 0..nrand {
-        let c = Cfg { mode: r.pick(&modes).clone(), init: r.pick(&inits).clone(), bad_env: r.chance(1, 12) };
+        let c = Cfg { mode: r.pick(&modes).clone(), init: r.pick(&inits).clone(), bad_env: r.chance(1, 12), one_port: false };
         let c = if c.bad_env && c.mode != TransportMode::Rtp { Cfg { bad_env: false, ..c } } else { c };
         let n = r.range(4, if thorough { 10 } else { 7 }) as usize;
         let mut s = vec![];
